@@ -25,6 +25,21 @@ quick: yes
 funcs: spifconf_shell_expand, builtin_exec
 */
 /*@unit
+name: expand_spawn_name1
+define: U_SPAWN, A_SPACE, A_EXEC, SHAPE="%exe? ))", NMAX=8, BUFF=32, VERIF_EXACT_LIBC, VERIF_OWN_STRLEN, VERIF_OWN_STRCMP, VERIF_OWN_STRDUP, VERIF_OWN_STRCHR
+src: conf.c
+tier: B
+bound: texts of the shape %exe? )) (only %exec )) may spawn) -- each ? any of {a, e, x, c, space}; line-buffer limit CONFIG_BUFF scaled to 32 bytes (stated re-binding, see units/C10/expand_b.c)
+unwind: 10
+flags: --unwindset strlen.0:14,strcpy.0:14,strcat.0:14,vb_a.0:12,spiftool_safe_strncpy.0:12,mk_str.0:6,strncasecmp.0:6,spifconf_shell_expand:1,spifconf_shell_expand.7:3,spifconf_shell_expand.10:8,spifconf_shell_expand.15:1,spifconf_shell_expand.21:1,spifconf_shell_expand.22:1,spifconf_shell_expand.23:1,spifconf_shell_expand.28:9,spifconf_shell_expand.29:9,has_exec_directive.0:9,check_spawn.0:9,check_spawn.1:10
+objbits: 10
+backend: sat
+timeout: 900
+mem: 12
+quick: yes
+funcs: spifconf_shell_expand, builtin_exec
+*/
+/*@unit
 name: expand_spawn_name2
 define: U_SPAWN, A_SPACE, A_EXEC, SHAPE="%a??a ))", NMAX=8, BUFF=32, VERIF_EXACT_LIBC, VERIF_OWN_STRLEN, VERIF_OWN_STRCMP, VERIF_OWN_STRDUP, VERIF_OWN_STRCHR
 src: conf.c
@@ -36,7 +51,7 @@ objbits: 10
 backend: sat
 timeout: 900
 mem: 12
-quick: yes
+quick: no
 funcs: spifconf_shell_expand, builtin_exec
 */
 /*@unit
@@ -66,7 +81,7 @@ objbits: 10
 backend: sat
 timeout: 900
 mem: 12
-quick: yes
+quick: no
 funcs: spifconf_shell_expand, builtin_exec
 */
 #define CASELIST "%aaaa ))", "%xece ))", "%exe  ))", "exec(a)", "%a(exec)", "%ex ec()", "%a( )", "% exec(a", "%a )a)", "%a(a) )", "e%xec(a)", "%e xec()", "%(exec)", "%%a(a)", "a %a(e)c", "(exec a)", "%a", "%exe", "%exe(a)", "%execa)"
